@@ -1071,7 +1071,22 @@ def m_tuple_index(I, recv, args, kw):
     raise Unsupported("tuple.index")
 
 
+def _symdict_get(I, o, a, k):
+    store = o.fields.setdefault("cells", {})
+    key = I.force(a[0])
+    kk = key if is_concrete(key) else str(to_z3(key))
+    if kk not in store:
+        from ..values import usort
+        store[kk] = SOpt(I.ctx.fresh_bool("sd_none"), SOpaque("pyobject", I.ctx.fresh("sd_val", usort("pyobject"))))
+    v = store[kk]
+    if len(a) > 1 and a[1] is not None:
+        return v.val if not I.ctx.decide(v.isnone, "symdict-missing") else a[1]
+    return v
+
+
 def install(reg):
+    reg.theory_methods[("symdict", "get")] = _symdict_get
+    reg.theory_methods[("symdict", "items")] = lambda I, o, a, k: TheoryObj("symiter", fields={"mk": lambda I2: (SOpaque("pyobject", I2.ctx.fresh("k", __import__("pyvc.values", fromlist=["usort"]).usort("pyobject"))), SOpaque("pyobject", I2.ctx.fresh("v", __import__("pyvc.values", fromlist=["usort"]).usort("pyobject"))))})
     B = reg.builtins
     for name, fn in [("len", b_len), ("min", b_min), ("max", b_max), ("int", b_int), ("float", b_float),
                      ("str", b_str), ("bool", b_bool), ("bytes", b_bytes), ("isinstance", b_isinstance),
